@@ -45,7 +45,8 @@ Definition q_rint (q : Q) : Z :=
 Definition xrint (a : xf) : xf := match a with XFin q => XFin (inject_Z (q_rint q)) | _ => a end.
 
 Definition NP_INT_MIN : Z := - 2 ^ 63.
-(* float -> int64 (.astype(int)): truncation toward zero; NaN, +inf, -inf -> INT_MIN *)
+(* float -> int64 (.astype(int)): truncation toward zero; NaN, +inf, -inf -> INT_MIN (a finite value beyond the int64
+   range, which the hardware also turns into INT_MIN, is outside the model: the theorems bound the width by 2^63) *)
 Definition x_to_int (a : xf) : Z :=
   match a with XFin q => Z.quot (Qnum q) (Zpos (Qden q)) | _ => NP_INT_MIN end.
 
